@@ -77,9 +77,11 @@ let () =
          let orig1 = List.init n (fun i -> (iof (fld i 15), iof (fld i 16))) in
          let b1 = check 1 (!adv1, orig1) in
          let bk = List.concat (List.map (fun (k, a, l) -> let l = List.rev l in if List.length l = n then List.map (fun s -> Printf.sprintf "k%d:%s" k s) (check k (a, l)) else [Printf.sprintf "k%d:slot-count-differs" k]) !ks) in
+         (* does the exact computation compare two equal quantities (then single-precision rounding of scaled values may decide a branch)? *)
+         let tie = bases_tie trees (Z0, Z0) in
          (match b1 @ bk with
-          | [] -> Printf.printf "%s X ok n=%d\n" id n
-          | l -> Printf.printf "%s X MISMATCH %s\n" id (String.concat " " (List.filteri (fun i _ -> i < 4) l)))
+          | [] -> Printf.printf "%s X ok n=%d tie=%d\n" id n (if tie then 1 else 0)
+          | l -> Printf.printf "%s X MISMATCH tie=%d %s\n" id (if tie then 1 else 0) (String.concat " " (List.filteri (fun i _ -> i < 4) l)))
        with Nonint -> Printf.printf "%s X nonintegral\n" id
           | Exit -> Printf.printf "%s X skip-reversed\n" id
           | Failure _ | Invalid_argument _ -> Printf.printf "%s X unparsable\n" id))
